@@ -335,3 +335,52 @@ for _unit, num in _NUMBER2.items():
         ensures=[("listed_are_qualifying_boundaries_in_range",
                   "forall(lambda k: implies(0 <= k < len(result), us(result[k]) %% %d == %d and us(t0) <= us(result[k]) < us(t1) and (%s) %% dt == 0))"
                   % (L, PH, num % "result[k]"))])
+
+
+# ---- range() for the calendar-length units (month, year): step 1 and stepped ---------------------------------------------
+def _cal_ceil_summary(unit):
+    """self.ceil(t0) inside range(), summarised by the clauses VERIFIED as ceil@month / ceil@year"""
+    b, st, ln = ("is_month_start", "month_start", "month_len") if unit == "month" else ("is_year_start", "year_start", "year_len")
+    return {"d3_time.d3_time_interval.ceil": {
+        "requires": [("in_range", "in_range_years(date)")], "modifies": [], "returns": "dt",
+        "ensures": ["%s(result)" % b, "us(result) >= us(date)",
+                    "implies(%s(date), result == date) and implies(not %s(date), us(result) == %s(date) + %s(date))" % (b, b, st, ln)]}}
+
+
+_CAL = {"month": dict(boundary="is_month_start", index="month_index", number="civil_month(%s) - 1"),
+        "year": dict(boundary="is_year_start", index="civil_year", number="civil_year(%s)")}
+for _unit, _c in _CAL.items():
+    B, IDX, NUM = _c["boundary"], _c["index"], _c["number"]
+    _common = dict(
+        props=["C17", "C16", "C18"], inline=True, setup=interval_setup(_unit), func_alias="d3_time.d3_time_interval.range", heap=True,
+        params={"t0": "dt_ms", "t1": "dt", "dt": "int"}, slist_locals={"times": "slist:dt"},
+        modifies=["list.len.dt", "list.elems.dt"], allocates=["list"], callee_contracts=_cal_ceil_summary(_unit), slice_first=True)
+    _inv_common = [("list", "times is not None and len(times) >= 0"),
+                   ("boundary", "%s(time)" % B),
+                   ("lemma", "lemma_year_monotone(t0, time__0) and lemma_year_monotone(time, t1) and lemma_year_monotone(time__0, time)"),
+                   ("not_before_the_first", "%s(time) >= %s(time__0)" % (IDX, IDX))]
+    CONTRACTS["d3_time.d3_time_interval.range@%s_step1" % _unit] = dict(
+        # thorough tier only: one loop obligation needed 6-18 s over repeated runs (1000+ calendar facts on the path) - too
+        # close to the quick tier's 10 s stages to be stable there
+        _common, slice_first=False, thorough_tier_only=True, requires=["in_range_years(t0)", "in_range_years(t1)", "dt == 1"],
+        loops={1: {"modifies": ["list.len.dt", "list.elems.dt"], "locals": {"time": "dt"},
+                   "inv": _inv_common + [
+                       ("progression", "%s(time) == %s(time__0) + len(times)" % (IDX, IDX)),
+                       ("elements", "forall(lambda k: implies(0 <= k < len(times), %s(times[k]) and %s(times[k]) == %s(time__0) + k "
+                                    "and us(times[k]) < us(t1)))" % (B, IDX, IDX))]}},
+        ensures=[("first_is_ceil", "%s(time__0) and us(time__0) >= us(t0)" % B),
+                 # exactly the boundaries in [t0, t1): consecutive periods from the earliest boundary not before t0 ...
+                 ("consecutive_boundaries", "forall(lambda k: implies(0 <= k < len(result), %s(result[k]) and %s(result[k]) == %s(time__0) + k "
+                                            "and us(result[k]) < us(t1)))" % (B, IDX, IDX)),
+                 # ... and none is missing: the boundary after the last one listed is not before t1
+                 ("complete", "%s(time) and %s(time) == %s(time__0) + len(result) and us(time) >= us(t1)" % (B, IDX, IDX))])
+    CONTRACTS["d3_time.d3_time_interval.range@%s_skip" % _unit] = dict(
+        _common, requires=["in_range_years(t0)", "in_range_years(t1)", "2 <= dt <= 12"],
+        loops={0: {"modifies": ["list.len.dt", "list.elems.dt"], "locals": {"time": "dt"},
+                   "inv": _inv_common + [
+                       ("elements", "forall(lambda k: implies(0 <= k < len(times), %s(times[k]) and %s(times[k]) >= %s(time__0) "
+                                    "and us(times[k]) < us(t1) and (%s) %% dt == 0))" % (B, IDX, IDX, NUM % "times[k]"))]}},
+        ensures=[("listed_are_qualifying_boundaries_in_range",
+                  "forall(lambda k: implies(0 <= k < len(result), %s(result[k]) and %s(result[k]) >= %s(time__0) and us(result[k]) < us(t1) "
+                  "and (%s) %% dt == 0))" % (B, IDX, IDX, NUM % "result[k]")),
+                 ("first_candidate_is_ceil", "%s(time__0) and us(time__0) >= us(t0)" % B)])
